@@ -206,7 +206,12 @@ def run(F, R, tier):
         exts = set()
         for bi, w, r, t in B.calls_named("PathBuf::set_extension"):
             a = t["args"][1]
-            exts.add(a.get("val") if a["k"] == "const" else "?")
+            if a["k"] == "const":
+                exts.add(a.get("val"))
+            else:
+                # `set_extension(if encrypted { "encrypted" } else { "key" })`: the literals that reach the argument
+                org = B.origins(a)
+                exts |= {o[2] for o in org if o[0] == "const"} if org and all(o[0] == "const" for o in org) else {"?"}
         joins = []
         for bi, w, r, t in B.calls_named("Path::join", "PathBuf::join"):
             base = B.origins(t["args"][0])
